@@ -114,6 +114,20 @@ class SymRange(SV):
         self.lo, self.hi = lo, hi
 
 
+class SArr(SV):
+    """an SMT array used as a total map (ghost state)"""
+    __slots__ = ('t',)
+
+    def __init__(self, t):
+        self.t = t
+
+
+class GhostProxy:
+    """live view of the interpreter's ghost state (so that old(G.x) reads the pre-state)"""
+    def __init__(self, interp):
+        self.interp = interp
+
+
 class SymEnumerate(SV):
     __slots__ = ('seq', 'start')
 
